@@ -71,34 +71,42 @@ def attribute(doc: str, o: dict, hard: bool = False) -> str | None:
     return attribute_soft(doc, o)
 
 
+def _unquote(t: str) -> str:
+    return t.translate({0x2018: "'", 0x2019: "'", 0x201C: '"', 0x201D: '"'})
+
+
 def attribute_soft(doc: str, o: dict) -> str | None:
+    """single-cause attributions first (each with its own shape or counterfactual), the generic trigger removal last"""
+    from props import c01
     if o.get("semantic") and o["width"] > 0 and _idem(doc, dict(o, semantic=False)) and short_fill_shape(fmt(doc, o), o["width"]):
         return "C11-unmerged-first-line-filled-short"
+    if re.search(r"\{%|\{\{|\{#|<!--", doc) and re.search(r"(?<!\S)\d+\.(?!\S)", doc) and _idem(re.sub(r"(?<!\S)\d+\.(?!\S)", "w", doc), o):
+        return "C02-escaped-marker-line-with-tag"
+    if o.get("smartquotes") and "'" in doc and '"' in doc:
+        # nested / overlapping pairs of the two kinds: run 2 differs from run 1 in quote characters only, and not at all once
+        # one kind is taken out of the input
+        try:
+            a = fmt(doc, o)
+            b2 = fmt(a, o)
+            if _unquote(a) == _unquote(b2) and (_idem(doc.replace("'", ""), o) or _idem(doc.replace('"', ""), o)):
+                return "C02-smartquotes-overlapping-pairs"
+        except Exception:
+            pass
+    if o.get("cleanups") and re.search(r"^[ >]*(#{1,6} +)?[*_]{4,}", doc, re.M) and _idem(neutralise(doc, dict(o, smartquotes=False)), o):
+        return "C02-unbold-nested-strong"
     nd = neutralise(doc, o)
     if re.search(r"\{%|\{\{|\{#|<!--", doc):
         nd = re.sub(r"(?<!\S)\d+\.(?!\S)", "w", nd)
-    if nd == doc:
+    if nd == doc or not _idem(nd, o):
         return None
-    try:
-        a = fmt(nd, o)
-        if fmt(a, o) != a:
-            return None
-    except Exception:
-        return None
-    from props import c01
-    if re.search(r"\{%|\{\{|\{#|<!--", doc) and re.search(r"(?<!\S)\d+\.(?!\S)", doc) and _idem(re.sub(r"(?<!\S)\d+\.(?!\S)", "w", doc), o):
-        return "C02-escaped-marker-line-with-tag"
-    if c01.neutralise(doc) == doc or _idem(c01.neutralise(doc), o) is False:
-        if o.get("smartquotes") and "'" in doc and '"' in doc and _idem(doc.replace("'", ""), o):
-            return "C02-smartquotes-overlapping-pairs"
-        if o.get("cleanups") and re.search(r"^[ >]*(#{1,6} +)?[*_]{4,}", doc, re.M):
-            return "C02-unbold-nested-strong"
-    for fid, rx in c01.TRIGGERS:
-        if rx.search(doc):
-            return fid
-    if o.get("ellipses"):
-        return "C09-ellipses-after-introduced-escape"
-    return "C01-unescaped-line-head-hazards"
+    if c01.neutralise(doc) != doc:
+        for fid, rx in c01.TRIGGERS:
+            if rx.search(doc):
+                return fid
+        if o.get("ellipses"):
+            return "C09-ellipses-after-introduced-escape"
+        return "C01-unescaped-line-head-hazards"
+    return None
 
 
 def _idem(doc: str, o: dict) -> bool:
